@@ -3,6 +3,7 @@
 from binascii import hexlify
 from datetime import datetime, timezone
 from enum import Enum
+from xml.sax.saxutils import escape, quoteattr
 
 from kskm.common.data import AlgorithmDNSSEC, FrozenStrictBaseModel
 
@@ -36,7 +37,7 @@ class KeyDigest(FrozenStrictBaseModel):
 
     def to_xml(self) -> str:
         """Return KeyDigest as XML sniplet."""
-        xml = f'<KeyDigest id="{self.id}"'
+        xml = f"<KeyDigest id={quoteattr(self.id)}"
         xml += f' validFrom="{self.format_datetime(self.valid_from)}"'
         if self.valid_until is not None:
             xml += f' validUntil="{self.format_datetime(self.valid_until)}"'
@@ -65,8 +66,8 @@ class TrustAnchor(FrozenStrictBaseModel):
 
     def to_xml(self) -> str:
         """Export trust anchor as XML sniplet."""
-        xml = f'<TrustAnchor id="{self.id}" source="{self.source}">\n'
-        xml += f"<Zone>{self.zone}</Zone>\n"
+        xml = f"<TrustAnchor id={quoteattr(self.id)} source={quoteattr(self.source)}>\n"
+        xml += f"<Zone>{escape(self.zone)}</Zone>\n"
         for ks in sorted(self.key_digests, key=lambda _ks: _ks.valid_from):
             xml += ks.to_xml()
         xml += "</TrustAnchor>"
